@@ -44,61 +44,48 @@ inductive Accepts : Ty → CT → Prop
   | func (ps1 ps2 : TyList) (rc1 rc2 : PCst) (r1 r2 : Ty) :
       SameTys ps1 ps2 → SameTy r1 r2 → Accepts (.func ps1 rc1 r1) (.val (.func ps2 rc2 r2))
 
-/-- no function type anywhere inside -/
-def fnFree : Ty → Bool
-  | .func _ _ _ => false
-  | .array _ e => fnFree e
-  | _ => true
-
-def fnFreeList : TyList → Bool
-  | .nil => true
-  | .cons _ t r => fnFree t && fnFreeList r
-
-/-- a function type whose parameters and result are not (and do not contain) function types;
-any non-function type -/
-def firstOrder : Ty → Bool
-  | .func ps _ r => fnFreeList ps && fnFree r
-  | .array _ e => fnFree e
-  | _ => true
-
+mutual
+/-- `param_cmp` only says yes to the same type (`long`/`double` never pass: it is too strict
+there, never too lax) -/
 theorem paramCmp_sound : (t1 : Ty) → (cc : Bool) → (c1 c2 : PCst) → (t2 : Ty) →
-    fnFree t1 = true → paramCmp cc c1 t1 c2 t2 = true → SameTy t1 t2
-  | .bool, cc, c1, c2, t2, _, h => by
+    paramCmp cc c1 t1 c2 t2 = true → SameTy t1 t2
+  | .bool, cc, c1, c2, t2, h => by
     cases t2 <;> simp [paramCmp] at h; exact .bool
-  | .int, cc, c1, c2, t2, _, h => by
+  | .int, cc, c1, c2, t2, h => by
     cases t2 <;> simp [paramCmp] at h; exact .int
-  | .long, cc, c1, c2, t2, _, h => by
+  | .long, cc, c1, c2, t2, h => by
     cases t2 <;> simp [paramCmp] at h
-  | .float, cc, c1, c2, t2, _, h => by
+  | .float, cc, c1, c2, t2, h => by
     cases t2 <;> simp [paramCmp] at h; exact .float
-  | .double, cc, c1, c2, t2, _, h => by
+  | .double, cc, c1, c2, t2, h => by
     cases t2 <;> simp [paramCmp] at h
-  | .char, cc, c1, c2, t2, _, h => by
+  | .char, cc, c1, c2, t2, h => by
     cases t2 <;> simp [paramCmp] at h; exact .char
-  | .string, cc, c1, c2, t2, _, h => by
+  | .string, cc, c1, c2, t2, h => by
     cases t2 <;> simp [paramCmp] at h; exact .string
-  | .named _ _, cc, c1, c2, t2, _, h => by
+  | .named _ _, cc, c1, c2, t2, h => by
     cases t2 <;> simp [paramCmp] at h
-  | .record s, cc, c1, c2, t2, _, h => by
+  | .record s, cc, c1, c2, t2, h => by
     cases t2 <;> simp [paramCmp] at h
     rw [← h.2]; exact .record s
-  | .enum s, cc, c1, c2, t2, _, h => by
+  | .enum s, cc, c1, c2, t2, h => by
     cases t2 <;> simp [paramCmp] at h
     rw [← h.2]; exact .enum s
-  | .func _ _ _, cc, c1, c2, t2, hf, h => by simp [fnFree] at hf
-  | .array ec e, cc, c1, c2, t2, hf, h => by
+  | .func ps1 rc1 r1, cc, c1, c2, t2, h => by
+    cases t2 <;> simp [paramCmp] at h
+    rename_i ps2 rc2 r2
+    exact .func _ _ _ _ _ _ (paramListCmp_sound ps1 ps2 h.2.1) (paramCmp_sound r1 false rc1 rc2 r2 h.2.2)
+  | .array ec e, cc, c1, c2, t2, h => by
     cases t2 <;> simp [paramCmp] at h
     rename_i ec2 e2
-    exact .array _ _ _ _ (paramCmp_sound e false ec ec2 e2 (by simpa [fnFree] using hf) h.2)
+    exact .array _ _ _ _ (paramCmp_sound e false ec ec2 e2 h.2)
 
-theorem paramListCmp_sound : (ps1 ps2 : TyList) → fnFreeList ps1 = true →
-    paramListCmp true ps1 ps2 = true → SameTys ps1 ps2
-  | .nil, .nil, _, _ => .nil
-  | .nil, .cons _ _ _, _, h => by simp [paramListCmp] at h
-  | .cons _ _ _, .nil, _, h => by simp [paramListCmp] at h
-  | .cons c1 t1 r1, .cons c2 t2 r2, hf, h => by
+theorem paramListCmp_sound : (ps1 ps2 : TyList) → paramListCmp true ps1 ps2 = true → SameTys ps1 ps2
+  | .nil, .nil, _ => .nil
+  | .nil, .cons _ _ _, h => by simp [paramListCmp] at h
+  | .cons _ _ _, .nil, h => by simp [paramListCmp] at h
+  | .cons c1 t1 r1, .cons c2 t2 r2, h => by
     simp only [paramListCmp, Bool.and_eq_true] at h
-    simp only [fnFreeList, Bool.and_eq_true] at hf
     have hc : c1 = c2 := by
       have := h.1
       unfold paramCmp at this
@@ -106,14 +93,38 @@ theorem paramListCmp_sound : (ps1 ps2 : TyList) → fnFreeList ps1 = true →
       · exact hcc
       · simp [hcc] at this
     subst hc
-    exact .cons _ _ _ _ _ (paramCmp_sound t1 true c1 c1 t2 hf.1 h.1) (paramListCmp_sound r1 r2 hf.2 h.2)
+    exact .cons _ _ _ _ _ (paramCmp_sound t1 true c1 c1 t2 h.1) (paramListCmp_sound r1 r2 h.2)
+end
 
+/-! ### history: `param_cmp` as it was in the pinned tree (032f4cb), before 186dfd9 -/
 
-/-- soundness of `param_expr_cmp` against the declarative rule — for parameter types that are
-first-order.  (For a function-typed parameter inside a function type the C code never compares
-the inner result type: see `paramExprCmp_unsound_second_order`.) -/
-theorem paramExprCmp_sound_partial (cc : Bool) (pc : PCst) (pt : Ty) (ln : Ln) (c : Comb)
-    (hfo : firstOrder pt = true) (h : paramExprCmp cc pc pt ln c = .ok) : Accepts pt c.ct := by
+mutual
+/-- the pinned `param_cmp`: `func_cmp(one.params, one.ret, two.params, one.ret)` — the result
+type of the second function type was never looked at -/
+def paramCmpPinned (constCmp : Bool) (c1 : PCst) (t1 : Ty) (c2 : PCst) (t2 : Ty) : Bool :=
+  if constCmp && c1 != c2 then false else
+  match t1, t2 with
+  | .bool, .bool => true
+  | .int, .int => true
+  | .float, .float => true
+  | .char, .char => true
+  | .string, .string => true
+  | .array ec1 e1, .array ec2 e2 => paramCmpPinned false ec1 e1 ec2 e2
+  | .enum a, .enum b => a == b
+  | .record a, .record b => a == b
+  | .func ps1 rc1 r1, .func ps2 _ _ =>
+      paramListCmpPinned true ps1 ps2 && paramCmpPinned false rc1 r1 rc1 r1
+  | _, _ => false
+def paramListCmpPinned (constCmp : Bool) : TyList → TyList → Bool
+  | .nil, .nil => true
+  | .cons c1 t1 r1, .cons c2 t2 r2 =>
+      paramCmpPinned constCmp c1 t1 c2 t2 && paramListCmpPinned constCmp r1 r2
+  | _, _ => false
+end
+
+/-- soundness of `param_expr_cmp` against the declarative rule, for every parameter type -/
+theorem paramExprCmp_sound (cc : Bool) (pc : PCst) (pt : Ty) (ln : Ln) (c : Comb)
+    (h : paramExprCmp cc pc pt ln c = .ok) : Accepts pt c.ct := by
   unfold paramExprCmp at h
   split at h
   · cases h
@@ -157,18 +168,16 @@ theorem paramExprCmp_sound_partial (cc : Bool) (pc : PCst) (pt : Ty) (ln : Ln) (
       | func ps rc r =>
         cases a <;> simp at h
         rename_i ps2 rc2 r2
-        simp only [firstOrder, Bool.and_eq_true] at hfo
         by_cases hf : funcCmp ps rc r ps2 rc2 r2 = true
         · simp only [funcCmp, Bool.and_eq_true] at hf
-          exact .func _ _ _ _ _ _ (paramListCmp_sound ps ps2 hfo.1 hf.1)
-            (paramCmp_sound r false rc rc2 r2 hfo.2 hf.2)
+          exact .func _ _ _ _ _ _ (paramListCmp_sound ps ps2 hf.1)
+            (paramCmp_sound r false rc rc2 r2 hf.2)
         · simp [hf] at h
       | array ec e =>
         cases a <;> simp at h
         rename_i ec2 e2
-        simp only [firstOrder] at hfo
         by_cases hf : paramCmp false ec2 e ec2 e2 = true
-        · exact .array _ _ _ _ (paramCmp_sound e false ec2 ec2 e2 hfo hf)
+        · exact .array _ _ _ _ (paramCmp_sound e false ec2 ec2 e2 hf)
         · simp [hf] at h
     | recordId r' =>
       rw [hct] at h
@@ -258,32 +267,27 @@ def SomeArgRejected : List (PCst × Ty) → List (Ln × Comb) → Prop
   | (_, pt) :: ps, (_, c) :: cs => ¬ Accepts pt c.ct ∨ SomeArgRejected ps cs
   | _, _ => False
 
-def allFirstOrder : List (PCst × Ty) → Bool
-  | [] => true
-  | (_, t) :: r => firstOrder t && allFirstOrder r
-
 theorem paramExprListGo_rejects (cc : Bool) : (ps : List (PCst × Ty)) → (cs : List (Ln × Comb)) →
-    allFirstOrder ps = true → SomeArgRejected ps cs → ∃ od, paramExprListGo cc ps cs = .fail od
-  | [], _, _, h => by simp [SomeArgRejected] at h
-  | _ :: _, [], _, h => by simp [SomeArgRejected] at h
-  | (pc, pt) :: ps, (eln, c) :: cs, hfo, h => by
-    simp only [allFirstOrder, Bool.and_eq_true] at hfo
+    SomeArgRejected ps cs → ∃ od, paramExprListGo cc ps cs = .fail od
+  | [], _, h => by simp [SomeArgRejected] at h
+  | _ :: _, [], h => by simp [SomeArgRejected] at h
+  | (pc, pt) :: ps, (eln, c) :: cs, h => by
     simp only [paramExprListGo]
     cases h1 : paramExprCmp cc pc pt eln c with
     | fail od => exact ⟨od, rfl⟩
     | ok =>
-      have hacc := paramExprCmp_sound_partial cc pc pt eln c hfo.1 h1
+      have hacc := paramExprCmp_sound cc pc pt eln c h1
       cases h with
       | inl hn => exact absurd hacc hn
-      | inr hr => exact paramExprListGo_rejects cc ps cs hfo.2 hr
+      | inr hr => exact paramExprListGo_rejects cc ps cs hr
 
 theorem tc_call_kind (Γ : Env) (ln : Ln) (f : Expr) (args : ExprList) (cf : Comb)
     (cs : List (Ln × Comb)) (ps : TyList) (rc : PCst) (r : Ty)
     (hf : tc Γ f = .ok cf) (hct : cf.ct = .val (.func ps rc r)) (ha : tcArgs Γ args = .ok cs)
-    (hfo : allFirstOrder ps.toList = true) (hbad : SomeArgRejected ps.toList cs) :
+    (hbad : SomeArgRejected ps.toList cs) :
     ∃ d, tc Γ (.call ln f args) = .error d ∧ (d.line = ln ∨ ∃ a ∈ cs, d.line = a.1) := by
   by_cases hlen : ps.toList.length = cs.length
-  · obtain ⟨od, hgo⟩ := paramExprListGo_rejects true ps.toList cs hfo hbad
+  · obtain ⟨od, hgo⟩ := paramExprListGo_rejects true ps.toList cs hbad
     cases od with
     | none =>
       exact ⟨⟨ln, .callMismatch⟩, by simp [tc, hf, hct, ha, paramExprListCmp, hlen, hgo, CmpRes.toExcept], .inl rfl⟩
@@ -337,10 +341,10 @@ theorem tcRest_unknown_exc (Γf : Env) (s : Sig) (ln : Ln) (name : String) (ps :
 theorem tcRest_result_kind (Γf : Env) (s : Sig) (ln : Ln) (name : String) (ps : List Param) (rc : PCst)
     (rty : Ty) (body : Expr) (excs : ExcList) (c : Comb)
     (hx : tcExcs Γf s excs = .ok ()) (hb : tc Γf body = .ok c)
-    (hfo : firstOrder s.r = true) (hbad : ¬ Accepts s.r c.ct) :
+    (hbad : ¬ Accepts s.r c.ct) :
     ∃ d, tcRest Γf s (.mk ln name ps rc rty body excs) = .error d ∧ (d.line = ln ∨ d.line = body.ln) := by
   cases h1 : paramExprCmp true s.rc s.r body.ln c with
-  | ok => exact absurd (paramExprCmp_sound_partial _ _ _ _ _ hfo h1) hbad
+  | ok => exact absurd (paramExprCmp_sound _ _ _ _ _ h1) hbad
   | fail od =>
     cases od with
     | none => exact ⟨⟨ln, .returnType⟩, by simp [tcRest, hx, hb, h1, CmpRes.toExcept], .inl rfl⟩
